@@ -83,8 +83,9 @@ func init() {
 		"(reflect.Value).IsNil":                 extReflectIsNil,
 		"github.com/google/go-cmp/cmp.Equal":    extCmpEqual,
 		"github.com/google/go-cmp/cmp.Exporter": extCmpExporter,
+		"github.com/google/go-cmp/cmp.Comparer": extCmpComparer,
 		"github.com/google/go-cmp/cmp/cmpopts.EquateEmpty": func(fr *frame, args []value) value {
-			return iface{t: types.Typ[types.Int], v: cmpOpt{"equate-empty"}}
+			return iface{t: types.Typ[types.Int], v: cmpOpt{kind: "equate-empty"}}
 		},
 		"internal/bytealg.IndexByteString":          extIndexByteString,
 		"internal/bytealg.IndexByte":                bytesAsString(extIndexByteString, 0),
@@ -1437,15 +1438,52 @@ type cmpOpts struct {
 	allowUnexported  bool // cmp.Exporter(func(reflect.Type) bool { return true }) / AllowUnexported on every type
 	equateEmpty      bool // cmpopts.EquateEmpty()
 	ignoreUnexported bool
+	comparers        []cmpOpt // cmp.Comparer(func(T, T) bool)
 }
 
 // cmpOpt is the boxed marker value returned by the option constructors.
-type cmpOpt struct{ kind string }
+type cmpOpt struct {
+	kind string
+	fn   value      // comparer: the function value
+	pt   types.Type // comparer: its parameter type
+}
 
 func (i *interpreter) cmpEqualO(fr *frame, o cmpOpts, t types.Type, x, y value, depth int) *Term {
 	tf := i.ps.tf
 	if depth > 64 {
 		panic(pathAbort{"unsupported", "cmp.Equal recursion too deep"})
+	}
+	// options come first (go-cmp tryOptions): comparers whose parameter type
+	// the node's type is assignable to, and EquateEmpty's filtered comparer on
+	// two empty slices / maps; more than one applicable option is a panic
+	if len(o.comparers) > 0 {
+		var app []cmpOpt
+		for _, c := range o.comparers {
+			if types.AssignableTo(t, c.pt) {
+				app = append(app, c)
+			}
+		}
+		n := len(app)
+		if o.equateEmpty {
+			switch t.Underlying().(type) {
+			case *types.Slice:
+				xs, _ := x.([]value)
+				ys, _ := y.([]value)
+				if len(xs) == 0 && len(ys) == 0 {
+					n++
+				}
+			case *types.Map:
+				if x.(*omap).len() == 0 && y.(*omap).len() == 0 {
+					n++
+				}
+			}
+		}
+		if n > 1 {
+			panic(targetPanic{iface{i.runtimeErrorString, "ambiguous set of applicable options at " + typeName(t)}})
+		}
+		if len(app) == 1 {
+			return i.boolTerm(call(i, fr, 0, app[0].fn, []value{x, y}))
+		}
 	}
 	// Equal method: (T) Equal(T) bool or (T) Equal(I) bool
 	if sel := i.prog.MethodSets.MethodSet(t).Lookup(nil, "Equal"); sel != nil {
@@ -1584,6 +1622,8 @@ func extCmpEqual(fr *frame, args []value) value {
 			o.equateEmpty = true
 		case "ignore-unexported":
 			o.ignoreUnexported = true
+		case "comparer":
+			o.comparers = append(o.comparers, m)
 		}
 	}
 	x, y := args[0].(iface), args[1].(iface)
@@ -1744,12 +1784,22 @@ func extAppendRune(fr *frame, args []value) value {
 
 // cmp.Exporter(f): the model requires f to accept every type; it is probed
 // on a nil reflect.Type stand-in and must return true.
+// cmp.Comparer(f): f must be func(T, T) bool
+func extCmpComparer(fr *frame, args []value) value {
+	a := args[0].(iface)
+	sig, ok := a.t.Underlying().(*types.Signature)
+	if !ok || sig.Params().Len() != 2 || sig.Results().Len() != 1 || !types.Identical(sig.Params().At(0).Type(), sig.Params().At(1).Type()) {
+		panic(targetPanic{iface{fr.i.runtimeErrorString, "invalid comparer function: " + a.t.String()}})
+	}
+	return iface{t: types.Typ[types.Int], v: cmpOpt{kind: "comparer", fn: a.v, pt: sig.Params().At(0).Type()}}
+}
+
 func extCmpExporter(fr *frame, args []value) value {
 	r := call(fr.i, fr, 0, args[0], []value{iface{}})
 	if b, ok := r.(bool); !ok || !b {
 		panic(pathAbort{"unsupported", "cmp.Exporter with a selective predicate"})
 	}
-	return iface{t: types.Typ[types.Int], v: cmpOpt{"exporter-all"}}
+	return iface{t: types.Typ[types.Int], v: cmpOpt{kind: "exporter-all"}}
 }
 
 func extStringsJoin(fr *frame, args []value) value {
